@@ -448,9 +448,7 @@ func runCase(mode string) func(t *rapid.T, c *ev.Case) {
 		})
 		defer w.close()
 		g := &gen{written: map[string]int{}}
-		if mode != "raw" {
-			g.noOverwrite = rapid.Bool().Draw(t, "noOverwrite")
-		}
+		g.noOverwrite = rapid.Bool().Draw(t, "noOverwrite")
 		if g.noOverwrite {
 			c.Class("history-without-cross-request-overwrites")
 		}
@@ -458,15 +456,29 @@ func runCase(mode string) func(t *rapid.T, c *ev.Case) {
 		queries := func(t *rapid.T, n int) {
 			for i := 0; i < n; i++ {
 				q := genQuery(t, mode, !g.noOverwrite)
-				if q.IsAgg() && q.Field != nil && qref.SeriesWithOnlyNullAggregates(q, qref.RowsFromStore(w.hs[0].St, mst)) {
-					// KNOWN FINDING C08-null-series-drops-groups (excluded from the main campaign, replayed separately)
-					c.Excluded("known:C08-null-series-drops-groups")
+				if q.Fill == "previous" && q.Desc {
+					// fill(previous) under ORDER BY time DESC fills in output order (as InfluxDB does): the statement's
+					// "descending = ascending reversed" is not defined for it; left out, not a finding
+					c.Excluded("unspecified:fill(previous)+desc")
+					q.Desc = false
+				}
+				if q.Field != nil && !g.noOverwrite {
+					// KNOWN FINDING C08-I: field predicates are evaluated on per-generation row fragments; histories in
+					// which a (series,time) is written by several requests are searched without field predicates only
+					c.Excluded("known:C08-I")
+					q.Field = nil
+					if q.IsAgg() && q.Interval == 0 {
+						q.Exact = true
+					}
+				}
+				cfgs := genConfigs(t)
+				if id := knownClass(q, cfgs, layoutOf(w)); id != "" {
+					c.Excluded("known:C08-" + id)
 					continue
 				}
 				if q.Exact {
 					c.Class("exact-hint")
 				}
-				cfgs := genConfigs(t)
 				w.exec(Op{Kind: "query", Query: &q, Configs: cfgs})
 				// non-trivial: >= 2 result rows and (>= 2 series merged into a group, or rows per group > some chunk size)
 				exp := qref.Eval(q, qref.RowsFromStore(w.hs[0].St, mst), hist.FieldNames)
